@@ -34,7 +34,9 @@ def main():
     for mod, cfg in (("Knuth", "Knuth_small"), ("Redc", "Redc_small"), ("LimbShift", "LimbShift_small"), ("AddMul", "AddMul_small"),
                      ("MG10", "MG10_2x1_small"), ("MG10", "MG10_3x2_small"), ("MG10", "MG10_recip2_small"),
                      ("Lehmer", "Lehmer_prefix_small"), ("Lehmer", "Lehmer_full_small"), ("Lehmer", "Lehmer_ext_small"),
-                     ("Lehmer", "Lehmer_ext_narrow"), ("Lehmer", "Lehmer_inv_small"), ("Root", "Root_small")):
+                     ("Lehmer", "Lehmer_ext_narrow"), ("Lehmer", "Lehmer_inv_small"), ("Root", "Root_small"),
+                     ("Pow", "Pow_pow_small"), ("Pow", "Pow_powmod_small"), ("Pow", "Pow_addmod_small"),
+                     ("BaseConv", "BaseConv_spigot_small"), ("BaseConv", "BaseConv_le_small"), ("BaseConv", "BaseConv_be_small")):
         meta = os.path.join(vlib.OUT, "algo_" + cfg)
         try:
             r = subprocess.run(vlib.tlc_cmd(mod + ".tla", cfg + ".cfg", meta, workers=8, gc="-XX:+UseParallelGC", xmx="6g"),
